@@ -291,7 +291,7 @@ def syn_table(rng, n, layout):
         tags, t = [], rng.randrange(0, 20)
         for _ in range(n):
             tags.append(t)
-            t += rng.choice((1, 1, 2, 3, 7, 40))
+            t += rng.choice((1, 1, 2, 3, 5, 9))
     else:                                   # spread over the whole tag range, last tag 65535
         tags = sorted(rng.sample(range(0, 65535), n - 1)) + [65535]
     ents = []
@@ -314,12 +314,15 @@ def synthetic_table_cases(rng, tier):
                 if layout != "top":
                     ranges = [(lo, min(top, lo + 16383)) for lo in range(0, top + 1, 16384)]
                     ranges += [(65000, 65535)]
-                elif thorough or n in (256, 257):
+                elif thorough:
                     ranges = [(lo, lo + 16383) for lo in range(0, 65536, 16384)]
+                elif n > 200:
+                    # the bottom of the range, and every member from a sorted position >= 200 on (the model costs
+                    # O(table size) per tag: the quick tier keeps the window short for the largest table)
+                    cut = tags[max(200, n - 50)]
+                    ranges = [(0, 1500), (max(0, cut - 2), 65535)]
                 else:
-                    # all members from sorted position 200 on, plus the bottom of the range
-                    cut = tags[min(len(tags) - 1, 200)] if n > 200 else tags[0]
-                    ranges = [(0, min(2000, 65535)), (max(0, min(cut, 61000) - 2), 65535)] if n > 200 else [(0, 3000), (62000, 65535)]
+                    ranges = [(0, 3000), (62000, 65535)]
                 for lo, hi in ranges:
                     cs.append(Case("TS %s %d %d" % (tab, lo, hi), "synthetic-traits-%s" % layout))
     # the array (range) constructor without a hash array: every member and its neighbours, large tables
